@@ -36,7 +36,18 @@ fn sep_for(f: F) -> &'static [u8] {
 
 /// Spells one document of a stream including its separator (YAML: leading '---').
 fn stream_piece(f: F, v: &V) -> Vec<u8> {
+	stream_piece_d(f, v, false)
+}
+
+/// `directives`: YAML documents carry %YAML / %TAG directives and an explicit end marker.
+fn stream_piece_d(f: F, v: &V, directives: bool) -> Vec<u8> {
 	let body = spell_doc(f, v, Style(0)).unwrap();
+	if f == F::Yaml && directives {
+		let mut b = b"%YAML 1.2\n%TAG !e! tag:example.com,2000:app/\n---\n".to_vec();
+		b.extend(body);
+		b.extend_from_slice(b"...\n");
+		return b;
+	}
 	match f {
 		F::Yaml => {
 			let mut b = sep_for(f).to_vec();
@@ -223,6 +234,7 @@ impl Read for GenReader<'_> {
 }
 
 struct MemCase {
+	directives: bool,
 	src: F,
 	to: F,
 	detect: bool,
@@ -232,7 +244,7 @@ struct MemCase {
 }
 
 fn mem_run(c: &MemCase) -> (Option<String>, usize, bool) {
-	let prebuilt: Vec<Vec<u8>> = c.classes.iter().enumerate().map(|(i, &s)| stream_piece(c.src, &doc_of(i, s))).collect();
+	let prebuilt: Vec<Vec<u8>> = c.classes.iter().enumerate().map(|(i, &s)| stream_piece_d(c.src, &doc_of(i, s), c.directives)).collect();
 	let largest = prebuilt.iter().map(Vec::len).max().unwrap();
 	// samples: (doc index, live bytes, live blocks)
 	let samples: Rc<RefCell<Vec<(usize, isize, isize)>>> = Rc::new(RefCell::new(Vec::with_capacity(1 << 16)));
@@ -338,7 +350,10 @@ pub fn run(ctx: &Ctx) -> CheckOutput {
 						if !thorough && to != F::Json && packet != 0 {
 							continue;
 						}
-						mem_jobs.push(MemCase { src, to, detect, n: nn, classes: classes.clone(), packet });
+						mem_jobs.push(MemCase { directives: false, src, to, detect, n: nn, classes: classes.clone(), packet });
+						if src == F::Yaml && to == F::Json && packet == 0 {
+							mem_jobs.push(MemCase { directives: true, src, to, detect, n: nn, classes: classes.clone(), packet });
+						}
 					}
 				}
 			}
@@ -346,7 +361,7 @@ pub fn run(ctx: &Ctx) -> CheckOutput {
 	}
 	if thorough {
 		for src in F::STREAMING {
-			mem_jobs.push(MemCase { src, to: F::Json, detect: true, n: 2000, classes: vec![4], packet: 0 });
+			mem_jobs.push(MemCase { directives: false, src, to: F::Json, detect: true, n: 2000, classes: vec![4], packet: 0 });
 		}
 	}
 	let tm = par_fold(&mem_jobs, Tally::default, |t, idx, c| {
@@ -359,7 +374,7 @@ pub fn run(ctx: &Ctx) -> CheckOutput {
 		t.count(if closed { "memory:abstract-state-set-closed(lasso)" } else { "memory:abstract-state-set-not-closed" });
 		t.nontrivial(fnv(&[c.src.name().as_bytes(), c.to.name().as_bytes(), &c.n.to_le_bytes(), &c.packet.to_le_bytes(), &[u8::from(c.detect), c.classes.len() as u8, c.classes[0] as u8]]));
 		if let Some(msg) = verdict {
-			t.bad(format!("memory-grows:{}{}", c.src.name(), if c.detect { ":detected" } else { "" }), json!({"kind": "memory", "src": c.src.name(), "to": c.to.name(), "detect": c.detect, "n": c.n, "classes": c.classes, "packet": c.packet}),
+			t.bad(format!("memory-grows:{}{}", c.src.name(), if c.detect { ":detected" } else { "" }), json!({"kind": "memory", "directives": c.directives, "src": c.src.name(), "to": c.to.name(), "detect": c.detect, "n": c.n, "classes": c.classes, "packet": c.packet}),
 				format!("{} stream of {} documents (size classes {:?}, packets of {} bytes, from={}) -> {}: {msg}", c.src.name(), c.n, c.classes, c.packet, if c.detect { "detect" } else { c.src.name() }, c.to.name()));
 		}
 		if idx % 37 == 0 {
@@ -376,7 +391,7 @@ pub fn run(ctx: &Ctx) -> CheckOutput {
 	CheckOutput {
 		level: "model_checking",
 		tally,
-		rule: format!("lag: streams of 4-12 documents (8 B, 100 B, 5 KiB, 20 KiB, mixed) in JSON / MessagePack / YAML, source named and detected, every streaming target, 8 packetisations (1, 2, 3 documents per read; all-but-3-bytes; half documents; 7-byte, 100-byte and single-byte packets) and, for the small streams, every read schedule with <= {} deviation(s); a monitor runs at EVERY read() call: with j documents fully delivered, the complete translations of documents 1..j-2 must already have been handed to the writer. memory: streams generated on demand (period-P cycles of documents up to 20 KiB; N = {} documents), packets of all/7/100/5000 bytes, named and detected; a counting allocator samples the live heap at every read(): the peak over documents [N/2,3N/4) must not exceed the peak over [N/4,N/2) by more than one largest document, and the overall peak must stay under 2 MiB + 24 x largest document (a stream-sized footprint breaks this); the set of (live bytes, live blocks) states of the third quarter is compared with the second quarter's (closed = lasso, reported).", if thorough { 2 } else { 1 }, n),
+		rule: format!("lag: streams of 4-12 documents (8 B, 100 B, 5 KiB, 20 KiB, mixed) in JSON / MessagePack / YAML, source named and detected, every streaming target, 8 packetisations (1, 2, 3 documents per read; all-but-3-bytes; half documents; 7-byte, 100-byte and single-byte packets) and, for the small streams, every read schedule with <= {} deviation(s); a monitor runs at EVERY read() call: with j documents fully delivered, the complete translations of documents 1..j-2 must already have been handed to the writer. memory: streams generated on demand (period-P cycles of documents up to 20 KiB, YAML also with %YAML/%TAG directives and '...' on every document; N = {} documents), packets of all/7/100/5000 bytes, named and detected; a counting allocator samples the live heap at every read(): the peak over documents [N/2,3N/4) must not exceed the peak over [N/4,N/2) by more than one largest document, and the overall peak must stay under 2 MiB + 24 x largest document (a stream-sized footprint breaks this); the set of (live bytes, live blocks) states of the third quarter is compared with the second quarter's (closed = lasso, reported).", if thorough { 2 } else { 1 }, n),
 		exhaustive: true,
 		bounds: json!({"deviations": if thorough { 2 } else { 1 }, "stream_documents": n}),
 		assumptions: vec![
@@ -397,7 +412,7 @@ pub fn replay(case: &Value) -> Option<String> {
 			lag_run(&c, case["cuts"].as_u64().unwrap() as usize, case["explore"].as_u64().map(|d| d as usize), &mut t)
 		}
 		_ => {
-			let c = MemCase { src: f("src"), to: f("to"), detect: case["detect"].as_bool().unwrap(), n: case["n"].as_u64().unwrap() as usize, classes: case["classes"].as_array().unwrap().iter().map(|x| x.as_u64().unwrap() as usize).collect(), packet: case["packet"].as_u64().unwrap() as usize };
+			let c = MemCase { directives: case["directives"].as_bool().unwrap_or(false), src: f("src"), to: f("to"), detect: case["detect"].as_bool().unwrap(), n: case["n"].as_u64().unwrap() as usize, classes: case["classes"].as_array().unwrap().iter().map(|x| x.as_u64().unwrap() as usize).collect(), packet: case["packet"].as_u64().unwrap() as usize };
 			mem_run(&c).0
 		}
 	}
